@@ -199,6 +199,7 @@ class FakeTransport:
         self._expected_packet = tuple()
         self.K = self.H = None
         self.session_id = sc.get("sid")  # a re-exchange: the session id of the first exchange is already set
+        self.host_key = FakeKey(sc["hk0"], sc["algo"]) if sc.get("hk0") else None  # key of an earlier exchange
         self.authenticated = bool(sc.get("authed"))  # exchanges happen before and after user authentication
         self.active = True
         self.in_kex = True
@@ -253,14 +254,13 @@ class FakeTransport:
                     return toy_verify(algo, self.blob, data, msg.asbytes())
 
             self._key_info = {self.host_key_type: ToyKey}
-            if not hasattr(self, "host_key"):
-                self.host_key = None
             if hasattr(Transport, "_check_sig_algorithm"):
                 self._check_sig_algorithm = Transport._check_sig_algorithm
             Transport._verify_key(self, host_key, sig)
             return
         if not ok:
             raise SSHException("Signature verification failed (fake transport)")
+        self.host_key = FakeKey(host_key, self._algo)
 
     def _activate_outbound(self):
         self.trace.append("act")
@@ -372,7 +372,11 @@ def run_scenario(sc):
                 dead = classify(e)
     exp = ",".join(str(t) for t in ft._expected_packet) or "-"
     sid = "none" if ft.session_id is None else hx(ft.session_id)
-    return " ".join(trace) + " | " + (dead or "ok") + " | " + exp + " | " + sid
+    try:
+        pub = "none" if ft.host_key is None else hx(ft.host_key.asbytes())
+    except Exception as e:
+        pub = "unreadable:" + type(e).__name__
+    return " ".join(trace) + " | " + (dead or "ok") + " | " + exp + " | " + sid + " | " + pub
 
 
 def scenario_line(sc):
@@ -387,9 +391,10 @@ def scenario_line(sc):
     md = "none" if sc["modulus"] is None else "%d:%d" % sc["modulus"]
     pk = " ".join("%d:%s:%d" % (t, hx(b), x) for t, b, x in sc["pkts"])
     sid = "none" if sc.get("sid") is None else hx(sc["sid"])
-    return ("kex %s %s %s %s %s %s %s %s %s %d %s %s %s %s" % (
+    hk0 = hx(sc["hk0"]) if sc.get("hk0") else "none"
+    return ("kex %s %s %s %s %s %s %s %s %s %d %s %s %s %s %s" % (
         en, sc["role"], sc["mode"], hx(sc["lv"]), hx(sc["rv"]), hx(sc["lk"]), hx(sc["rk"]), hx(sc["hostkey"]),
-        hx(sc["algo"]), sc["x"], sc["verify"], md, sid, pk)).rstrip()
+        hx(sc["algo"]), sc["x"], sc["verify"], md, sid, hk0, pk)).rstrip()
 
 
 # ------------------------------------------------------------------------------------------ wire helpers
@@ -427,6 +432,11 @@ def parse_trace(text):
     return (tr.split(" ") if tr else []), status, exp
 
 
+def final_host_key(text):
+    """the transport's host_key blob after the run ('none' or hex)"""
+    return text.split(" | ")[4]
+
+
 def final_sid(text):
     """the transport's session_id after the run ('none' or hex)"""
     return text.split(" | ")[3]
@@ -442,6 +452,13 @@ def derived(text):
 
 # ------------------------------------------------------------------------------------------ generators
 def base_scenario(rng, engine, role, mode="gate"):
+    d = _base_scenario(rng, engine, role, mode)
+    if d["hk0"] == "same":
+        d["hk0"] = d["hostkey"]
+    return d
+
+
+def _base_scenario(rng, engine, role, mode):
     return {"engine": engine, "role": role, "mode": mode,
             "lv": b"SSH-2.0-" + bytes(rng.choice(b"abcXYZ_019") for _ in range(rng.randrange(1, 9))),
             "rv": b"SSH-2.0-" + bytes(rng.choice(b"abcXYZ_019") for _ in range(rng.randrange(1, 9))),
@@ -449,7 +466,9 @@ def base_scenario(rng, engine, role, mode="gate"):
             "hostkey": rng.randbytes(rng.randrange(1, 30)),
             "algo": rng.choice([b"ssh-ed25519", b"rsa-sha2-512", b"ecdsa-sha2-nistp256", b"toy"]),
             "x": 2, "verify": rng.choice(["yes", "yes", "toy", "no"]), "modulus": None, "pkts": [], "old": False,
-            "sid": rng.choice([None, None, b"first-exchange-hash"]), "authed": rng.random() < 0.4}
+            "sid": rng.choice([None, None, b"first-exchange-hash"]), "authed": rng.random() < 0.4,
+            # a re-exchange: the host key of the earlier exchange is on record (the same key, or ANOTHER one)
+            "hk0": rng.choice([None, None, b"an-earlier-host-key", "same"])}
 
 
 def boundary_values(rng, p, extra_random=3):
@@ -782,6 +801,7 @@ def rand_x(rng, p):
 def sc_json(sc):
     out = dict(sc)
     out["sid"] = sc["sid"].hex() if sc.get("sid") else None
+    out["hk0"] = sc["hk0"].hex() if sc.get("hk0") else None
     for k in ("lv", "rv", "lk", "rk", "hostkey", "algo"):
         out[k] = sc[k].hex()
     out["pkts"] = [[t, b.hex(), x] for t, b, x in sc["pkts"]]
@@ -792,6 +812,7 @@ def sc_json(sc):
 def sc_from_json(d):
     sc = dict(d)
     sc["sid"] = bytes.fromhex(d["sid"]) if d.get("sid") else None
+    sc["hk0"] = bytes.fromhex(d["hk0"]) if d.get("hk0") else None
     for k in ("lv", "rv", "lk", "rk", "hostkey", "algo"):
         sc[k] = bytes.fromhex(d[k])
     sc["pkts"] = [(t, bytes.fromhex(b), x) for t, b, x in d["pkts"]]
